@@ -25,6 +25,28 @@ func CommandLine(s []string) {
 	}
 }
 
+// Statement takes in command line arguments as a slice and escapes them so
+// that murex reads each one back as exactly one parameter. That is everything
+// CommandLine escapes plus the tokens it leaves alone: statement separators,
+// braces, backticks, `~`, `%`, `=` and zero length arguments
+func Statement(s []string) {
+	CommandLine(s)
+	for i := range s {
+		if s[i] == "" {
+			s[i] = `''`
+			continue
+		}
+		s[i] = strings.Replace(s[i], `;`, `\;`, -1)
+		s[i] = strings.Replace(s[i], `&`, `\&`, -1)
+		s[i] = strings.Replace(s[i], `=`, `\=`, -1)
+		s[i] = strings.Replace(s[i], "`", "\\`", -1)
+		s[i] = strings.Replace(s[i], `{`, `\{`, -1)
+		s[i] = strings.Replace(s[i], `}`, `\}`, -1)
+		s[i] = strings.Replace(s[i], `~`, `\~`, -1)
+		s[i] = strings.Replace(s[i], `%`, `\%`, -1)
+	}
+}
+
 // Table takes in terminal-rendered tables cells and escapes the contents
 func Table(s []string) {
 	for i := range s {
